@@ -161,6 +161,8 @@ pub struct Wrapper {
     pub path: Vec<String>,
     pub kind: WrapperKind,
     pub sig: Signature,
+    /// `pub async fn` (async-lowered import, C08)
+    pub is_async: bool,
 }
 
 #[derive(Clone, Debug)]
@@ -191,6 +193,8 @@ pub struct Analysis {
     pub exports: Vec<ExportDecl>,
     pub has_export_macro: bool,
     pub unsupported: Vec<String>,
+    /// export names of `[callback][async-lift]..` symbols (C08): `(u32, u32, u32) -> u32`
+    pub callbacks: Vec<String>,
 }
 
 struct ForeignCollector {
@@ -261,9 +265,10 @@ fn lifetime_of(g: &syn::Generics, what: &str, an: &mut Analysis) -> Option<Optio
     Some(lt)
 }
 
-/// an ordinary safe, sync, non-generic function (what a user calls)
+/// an ordinary safe, non-generic function (what a user calls); `async fn`s are
+/// the wrappers of async-lowered imports (C08; never present in sync worlds)
 fn plain_sig(s: &Signature) -> bool {
-    s.generics.params.is_empty() && s.unsafety.is_none() && s.asyncness.is_none()
+    s.generics.params.is_empty() && s.unsafety.is_none()
 }
 
 fn is_pub(v: &Visibility) -> bool {
@@ -421,7 +426,7 @@ fn walk(items: &[Item], path: &mut Vec<String>, an: &mut Analysis) {
                 an.unsupported.extend(c.errors);
                 let is_wrapper = is_pub(&f.vis) && plain_sig(&f.sig) && c.found.iter().any(|(l, _, _)| l.starts_with("verif_import|"));
                 let w = if is_wrapper {
-                    an.wrappers.push(Wrapper { path: path.clone(), kind: WrapperKind::Free, sig: f.sig.clone() });
+                    an.wrappers.push(Wrapper { path: path.clone(), kind: WrapperKind::Free, sig: f.sig.clone(), is_async: f.sig.asyncness.is_some() });
                     Some(an.wrappers.len() - 1)
                 } else {
                     None
@@ -453,7 +458,7 @@ fn walk(items: &[Item], path: &mut Vec<String>, an: &mut Analysis) {
                         an.unsupported.extend(c.errors);
                         let is_wrapper = i.trait_.is_none() && is_pub(&f.vis) && plain_sig(&f.sig) && c.found.iter().any(|(l, _, _)| l.starts_with("verif_import|"));
                         let w = if is_wrapper {
-                            an.wrappers.push(Wrapper { path: path.clone(), kind: WrapperKind::Method { self_ty: self_ty.clone() }, sig: f.sig.clone() });
+                            an.wrappers.push(Wrapper { path: path.clone(), kind: WrapperKind::Method { self_ty: self_ty.clone() }, sig: f.sig.clone(), is_async: f.sig.asyncness.is_some() });
                             Some(an.wrappers.len() - 1)
                         } else {
                             None
@@ -559,6 +564,12 @@ fn scan_exports(ts: TokenStream, an: &mut Analysis) {
                                         t => ret.extend([t.clone()]),
                                     }
                                     k += 1;
+                                }
+                                if name.contains("[callback]") {
+                                    // `(event0: u32, event1: u32, event2: u32) -> u32`: called through dedicated glue
+                                    an.callbacks.push(name.clone());
+                                    i = k;
+                                    continue;
                                 }
                                 let res = (|| -> Result<ExportDecl> {
                                     let al: ArgList = syn::parse2(args.stream()).map_err(|e| anyhow!("export `{name}`: {e}"))?;
